@@ -1,6 +1,7 @@
 import WV.Proofs.C03
 import WV.Proofs.C03_Sys
 import WV.Gen.Skel
+import WV.Gen.ApiSkel
 
 /-!
 C03 — mailbox messages arrive in order, exactly once, unmodified: property theorems.
@@ -512,5 +513,38 @@ theorem closing_delivers_nothing (b : BossD) (x : BIn) :
 example :
     let r := bossRun bossInit [] [.gotCode, .happy, .gotPhase 1 [11], .close, .closed, .gotPhase 0 [10]]
     wRecvs r.2 = [] ∧ r.1.rx.phases = [(1, [11])] ∧ r.1.rx.next = 0 := by decide
+
+
+/-! ## the API façade
+
+`wSendMessage` / `wClose` (what the driver's `send` / `close` execute) hand the call to the Boss at
+once, so a `send_message` issued anywhere — also from inside a delegate callback, where Automat runs
+the nested `Boss.send` depth-first — is simply a `send` input at that position of the Boss's input
+trace, and `tx_numbering` numbers the sends in exactly that (issue) order.  The obligation below ties
+this shape to the code: re-routing `send_message` / `close` (e.g. through the eventual queue), calling
+the delegate through an intermediary, or changing what `received` / `get_message` do changes
+`Gen.ApiSkel.skeleton` (WV/Gen/ApiSkel.lean, regenerated on every run) and the theorem stops checking. -/
+
+theorem api_calls_boss_at_once (C : Crypto) (c : Client) (pt : Bytes) :
+    wSendMessage C c pt = cBoss C c .send (.pt pt) ∧ wClose C c = cBoss C c .close .none := ⟨rfl, rfl⟩
+
+def apiSkeleton : List (String × List (String × String)) :=
+  [ ("_DelegatedWormhole.send_message", [("-", "_boss.send")]),
+    ("_DelegatedWormhole.close", [("-", "_boss.close")]),
+    ("_DelegatedWormhole.got_welcome", [("-", "_delegate.wormhole_got_welcome")]),
+    ("_DelegatedWormhole.got_code", [("-", "_delegate.wormhole_got_code")]),
+    ("_DelegatedWormhole.got_key", [("-", "_delegate.wormhole_got_unverified_key")]),
+    ("_DelegatedWormhole.got_verifier", [("-", "_delegate.wormhole_got_verifier")]),
+    ("_DelegatedWormhole.got_versions", [("-", "_delegate.wormhole_got_versions")]),
+    ("_DelegatedWormhole.received", [("-", "_delegate.wormhole_got_message")]),
+    ("_DelegatedWormhole.closed", [("-", "_delegate.wormhole_closed")]),
+    ("_DeferredWormhole.send_message", [("-", "_boss.send")]),
+    ("_DeferredWormhole.close", [("-", "_closed_observer.when_fired"), ("if", "_boss.close")]),
+    ("_DeferredWormhole.received", [("-", "_received_observer.fire")]),
+    ("_DeferredWormhole.get_message", [("-", "_received_observer.when_next_event")]),
+    ("SequenceObserver.when_next_event", [("-", "Deferred"), ("if", "_eq.eventually"), ("else/if", "_eq.eventually")]),
+    ("SequenceObserver.fire", [("if/for", "_eq.eventually"), ("else/if", "_eq.eventually")]) ]
+
+theorem api_skeleton_agrees : ∀ e ∈ apiSkeleton, ApiSkel.skeleton e.1 = e.2 := by decide
 
 end WV.Props.C03
